@@ -1643,8 +1643,8 @@ Fix 45d0bc2 closed ONE way in which a proposal message can make the gov module a
 deposits (the account as its own depositor).  The general class is wider: every message whose only signer is the gov account
 and whose handler moves coins out of it — bank `MsgSend` / `MsgMultiSend`, `MsgFundCommunityPool`, `MsgDelegate` … — is a
 legal proposal message, and the account holds nothing BUT the escrow.  The model's message alphabet now contains the abstract
-`govSpend amt to`; `execMsg` lets it succeed whenever the balance covers it, as the bank does.  The conservation and totality
-theorems above (`module_balance_eq_open_deposits`, `each_deposit_settled_once*`, `gov_endblock_*`, `no_halt`, `queue_consistency`,
+`govSpend amt to`; `execMsg` lets it succeed whenever the balance covers it, as the bank does.  The conservation and
+totality theorems above (`module_balance_eq_open_deposits`, `each_deposit_settled_once*`, `gov_endblock_*`, `no_halt`, `queue_consistency`,
 …) therefore carry the hypothesis `NoGovSpend ops` — no proposal of the history carries such a message — explicitly; on the
 message alphabet of rounds 1–4 it is vacuous, so no statement got weaker.  Below: the hypothesis is exactly what is needed. -/
 
@@ -1789,5 +1789,40 @@ example : voteWeightedAccepts [(.no, 700000000000000000), (.abstain, 30000000000
     voteWeightedAccepts [(.yes, 600000000000000000), (.no, 300000000000000000)] = false ∧
     voteWeightedAccepts [(.yes, 600000000000000000), (.no, 500000000000000000)] = false ∧
     voteWeightedAccepts [(.yes, DEC), (.no, 0)] = false ∧ voteWeightedAccepts [] = false := by decide
+
+/-! ## round 5: the coin loop of `ChargeDeposit`, read statement by statement -/
+
+theorem mulTrunc_le (a r : Nat) (h : r ≤ DEC) : mulTrunc a r ≤ a := by
+  unfold mulTrunc
+  have h1 : a * r ≤ a * DEC := Nat.mul_le_mul_left a h
+  have h2 : a * DEC / DEC = a := Nat.mul_div_cancel a (by decide)
+  calc a * r / DEC ≤ a * DEC / DEC := Nat.div_le_div_right h1
+    _ = a := h2
+
+/-- **the loop over the coins of a deposit in the SDK's `ChargeDeposit`, as written now**: `burnAmount := trunc(amount · rate)`,
+`remainingAmount += amount − burnAmount`, `cancellationCharges += burnAmount` — and for every cancellation rate ≤ 1 (the only
+rates `Params.valid`, i.e. `v1.Params.ValidateBasic`, accepts), every amount and every value of the two accumulators the
+statement-by-statement run gives exactly what the model's closed form under the flag `chargeCoinOk` adds: the depositor keeps
+`amount − trunc(amount · rate)`, the charge is the rest, together the whole deposit -/
+theorem charge_coin_loop_statements :
+    sdkChargeCoin = ["burnAmount=trunc(amount*rate)", "remaining+=amount-burnAmount", "charges+=burnAmount"] ∧
+    (∀ p : Params, p.valid = true → p.cancelRatio ≤ DEC) ∧
+    (∀ rate amt keep chg : Nat, rate ≤ DEC →
+      chargeCoinRun rate amt keep chg = (keep + (amt - mulTrunc amt rate), chg + (amt - (amt - mulTrunc amt rate))) ∧
+      (amt - mulTrunc amt rate) + (amt - (amt - mulTrunc amt rate)) = amt) := by
+  refine ⟨rfl, ?_, ?_⟩
+  · intro p hp
+    simp only [Params.valid, Bool.and_eq_true, decide_eq_true_eq] at hp
+    omega
+  · intro rate amt keep chg hr
+    have hle := mulTrunc_le amt rate hr
+    have e : chargeCoinRun rate amt keep chg = (keep + (amt - mulTrunc amt rate), chg + mulTrunc amt rate) := rfl
+    rw [e]
+    constructor
+    · congr 2; omega
+    · omega
+
+/-- non-vacuity: the default parameters are valid; half of 1001 is kept rounded up (501), the charge is 500 -/
+example : ({} : Params).valid = true ∧ chargeCoinRun 500000000000000000 1001 0 0 = (501, 500) := by decide
 
 end FxVerif.Props.C15
